@@ -223,6 +223,50 @@ func (e *Engine) loopSpec(fr *Frame, li *loopInfo) *LoopSpec {
 	return c.Loops[li.ord]
 }
 
+// resolvableClauses: loop clauses that name a variable which does not exist at this loop head (the loop was reshaped:
+// a variable now declared inside the body) are left out - for the whole loop, entry, back edge and assumption alike.
+// An invariant with fewer conjuncts is still proved before it is used; if the rest of the proof needed the clause, the
+// proof fails as it would have.
+func (e *Engine) resolvableClauses(st *State, fr *Frame, li *loopInfo, ls *LoopSpec) *LoopSpec {
+	if ls.Unreach {
+		return ls
+	}
+	ok := func(c Clause) (ok bool) {
+		defer func() {
+			if r := recover(); r != nil {
+				ok = false
+				if u, isU := r.(Unsupported); !isU || !strings.Contains(u.Msg, "unknown name") {
+					panic(r)
+				}
+			}
+		}()
+		e.evalSpec(c.E, e.invEnv(st.Clone(), fr.cloneForPath()))
+		return true
+	}
+	out := &LoopSpec{Owns: ls.Owns, Unreach: ls.Unreach}
+	dropped := 0
+	keep := func(in []Clause) (res []Clause) {
+		for _, c := range in {
+			if ok(c) {
+				res = append(res, c)
+			} else {
+				dropped++
+			}
+		}
+		return
+	}
+	out.Inv, out.Hints, out.Decr = keep(ls.Inv), keep(ls.Hints), keep(ls.Decr)
+	if dropped == 0 {
+		return ls
+	}
+	e.notes = append(e.notes, fmt.Sprintf("loop %d of %s: %d loop clause(s) name a variable that does not exist at the loop head and are left out", li.ord, fr.fn.Name(), dropped))
+	if e.borrowed == nil {
+		e.borrowed = map[*ssa.BasicBlock]*LoopSpec{}
+	}
+	e.borrowed[li.header] = out
+	return out
+}
+
 // orphanContracts: contracts (of this run's contract set) whose function no longer exists in the code.
 var orphanContracts []*Contract
 
@@ -266,6 +310,29 @@ func (e *Engine) borrowLoopSpec(st *State, fr *Frame, li *loopInfo) *LoopSpec {
 		}
 		for _, k := range ords(oc.Loops) {
 			cands = append(cands, cand{oc.Loops[k], fmt.Sprintf("%s loop %d", oc.Key, k)})
+		}
+	}
+	// last resort: the loop clauses of any other contract of the package (a helper that still exists may have been
+	// inlined into one of its callers); variants of the same function as the root contract first
+	variant := ""
+	if e.rootC != nil {
+		if i := strings.Index(e.rootC.Key, "#"); i >= 0 {
+			variant = e.rootC.Key[i:]
+		}
+	}
+	for pass := 0; pass < 2; pass++ {
+		for _, k := range e.cs.Order {
+			oc := e.cs.Funcs[k]
+			if oc == nil || oc.Pkg != pkg || oc == e.rootC || oc.Trusted || len(oc.Loops) == 0 {
+				continue
+			}
+			sameVariant := variant != "" && strings.HasSuffix(oc.Key, variant)
+			if (pass == 0) != sameVariant {
+				continue
+			}
+			for _, o := range ords(oc.Loops) {
+				cands = append(cands, cand{oc.Loops[o], fmt.Sprintf("%s loop %d", oc.Key, o)})
+			}
 		}
 	}
 	for _, c := range cands {
@@ -453,6 +520,7 @@ func (e *Engine) loopEntry(st *State, fr *Frame, li *loopInfo, pred *ssa.BasicBl
 	if ls == nil {
 		panic(unsupported("loop %d of %s has no invariant", li.ord, fr.fn.Name()))
 	}
+	ls = e.resolvableClauses(st, fr, li, ls)
 	if ls.Unreach {
 		// the back edge is proved unreachable (obligation backedge-unreachable): the header runs once, from the
 		// entry edge, with the entry state: no cut, no havoc
